@@ -192,3 +192,13 @@ Proof.
   intros Hs H. rewrite (req_params_is_reference s kb csv Hs) in H. injection H as <-.
   repeat split; [apply get_param_is_spec | apply int_getter_is_spec | apply bool_getter_is_spec].
 Qed.
+
+(* ---- getters never write the mapping: after any history of calls req.params is what was parsed,
+   and every call sees that same mapping *)
+Theorem getters_pure fixed p cs :
+  snd (do_calls fixed p cs) = p /\ fst (do_calls fixed p cs) = map (fun c => fst (do_call fixed p c)) cs.
+Proof.
+  induction cs as [|c tl [IH1 IH2]]; [split; reflexivity|].
+  cbn [do_calls map]. assert (E : do_call fixed p c = (fst (do_call fixed p c), p)) by (destruct c; reflexivity).
+  rewrite E. destruct (do_calls fixed p tl) as [os p2]. cbn [fst snd] in *. subst. split; reflexivity.
+Qed.
